@@ -80,6 +80,9 @@ Proof. exact one_at_a_time_actor_side. Qed.
    They are checked on every run by check_C14 on the implementation's histories and by the
    model/implementation view comparison; the unrestricted affinity statement is refuted below. *)
 
+Definition started_order (evs : list (list event)) : list N :=
+  flat_map (fun e => match e with EStart j _ _ => [j] | _ => [] end) (concat evs).
+
 (* ---- pins *)
 Check (C14_custom_in_pool : forall c k hint w wid w',
   c_router c = RCustom -> choose_target c k hint w = (Some wid, w') ->
@@ -135,6 +138,21 @@ Example oracle_flags_f3 :
   check_C14 kp1 1 None f3_ops (scenario_events kp1 1 None [] f3_ops)
   = [AActiveUnder 8 0 1; AAffinity 1 0 1 10].
 Proof. vm_compute. reflexivity. Qed.
+
+(* ---- F8 (fixed in /repo by aa3c2d4): key-persistent routing started with an empty pool. Under the
+   pre-fix rule only pool_size backlogged jobs are routed when the pool grows; job 3 (same key),
+   dispatched afterwards, goes straight to the worker's queue and starts before job 2. *)
+Definition kp0_pre := mk_config_pre_f8 RKeyPersistent false [(1,7,0)] [].
+Definition kp0 := mk_config RKeyPersistent false [(1,7,0)] [].
+Definition f8_ops := [ODispatch 1 7 None true; ODispatch 2 7 None true; OSetCount 1; ODispatch 3 7 None true;
+                      OComplete 0; OComplete 0; OComplete 0].
+Example C14_key_order_refuted_before_fix :
+  check_C14 kp0_pre 0 None f8_ops (scenario_events kp0_pre 0 None [] f8_ops) = [AOrder 7 2 3].
+Proof. vm_compute. reflexivity. Qed.
+Example C14_key_order_after_fix :
+  check_C14 kp0 0 None f8_ops (scenario_events kp0 0 None [] f8_ops) = []
+  /\ started_order (scenario_events kp0 0 None [] f8_ops) = [1; 2; 3].
+Proof. vm_compute. split; reflexivity. Qed.
 
 Print Assumptions C14_custom_in_pool.
 Print Assumptions C14_custom_empty_pool.
